@@ -127,23 +127,23 @@ G1(t) == /\ Pc(t) = "g1"
          /\ IF ptr = "closed" THEN Set(t, [loc[t] EXCEPT !.pc = "p2", !.err = "ClosedPoolError", !.conn = NONE])
                               ELSE Set(t, [loc[t] EXCEPT !.pc = "g2"])
          /\ UNCHANGED <<ptr, queue, open, wire, holds, outs, got, cur, dropped, fresh, script, res>>
-\* LOAD self.pool (the operand of `.get`)
+\* LOAD self.pool (the operand of `.get`): on None the attribute access raises AttributeError, which
+\* _get_conn turns into ClosedPoolError (no queue operation happens)
 G2(t) == /\ Pc(t) = "g2"
-         /\ Set(t, [loc[t] EXCEPT !.pc = "g3", !.lq = IF ptr = "open" THEN "q" ELSE "none"])
+         /\ IF ptr = "open" THEN Set(t, [loc[t] EXCEPT !.pc = "g3", !.lq = "q"])
+            ELSE Set(t, [loc[t] EXCEPT !.pc = "p2", !.conn = NONE, !.lq = "none",
+                                      !.err = IF Dev("NoAttrArm") THEN "AttributeError" ELSE "ClosedPoolError"])
          /\ UNCHANGED <<ptr, queue, open, wire, holds, outs, got, cur, dropped, fresh, script, res>>
-\* .get(block=self.block): AttributeError on None -> ClosedPoolError; Empty -> new connection unless block
+\* .get(block=self.block) on the loaded queue object (live or already orphaned); Empty -> new
+\* connection unless block, in which case the thread is parked until the queue is fed
 G3(t) == /\ Pc(t) = "g3"
-         /\ IF loc[t].lq = "none" THEN
-               /\ Set(t, [loc[t] EXCEPT !.pc = "p2", !.conn = NONE,
-                                         !.err = IF Dev("NoAttrArm") THEN "AttributeError" ELSE "ClosedPoolError"])
-               /\ UNCHANGED <<queue, holds>>
-            ELSE IF queue # <<>> THEN
+         /\ IF queue # <<>> THEN
                /\ queue' = Pop(queue)
                /\ IF Top(queue) = SENT
                      THEN Set(t, [loc[t] EXCEPT !.pc = "g3s"]) /\ UNCHANGED holds
                      ELSE /\ Set(t, [loc[t] EXCEPT !.pc = "g4", !.conn = Top(queue)])
                           /\ holds' = [holds EXCEPT ![t] = IF Top(queue) = NONE THEN @ ELSE @ \cup {Top(queue)}]
-            ELSE /\ ~Block \/ Dev("NoBlockRaise")      \* block=True: parked until the queue is fed
+            ELSE /\ ~Block \/ Dev("NoBlockRaise")
                  /\ Set(t, [loc[t] EXCEPT !.pc = "g4", !.conn = NONE]) /\ UNCHANGED <<queue, holds>>
          /\ UNCHANGED <<ptr, open, wire, outs, got, cur, dropped, fresh, script, res>>
 \* WakeOnClose repair: the sentinel is handed on to the next waiter, the request fails with ClosedPoolError
@@ -278,7 +278,7 @@ C3(k) == /\ Pc(k) = "c3"
 
 (* ---- observable record of the model state *)
 Finished(p) == IF p \in Threads THEN Pc(p) = "idle" /\ loc[p].left = 0 ELSE Pc(p) = "cdone"
-Parked(p) == /\ p \in Threads /\ Pc(p) = "g3" /\ loc[p].lq = "q" /\ queue = <<>> /\ Block /\ ~Dev("NoBlockRaise")
+Parked(p) == /\ p \in Threads /\ Pc(p) = "g3" /\ queue = <<>> /\ Block /\ ~Dev("NoBlockRaise")
 Obs == [ptr |-> ptr, queue |-> queue, open |-> open, holds |-> holds, lastio |-> lastio, cur |-> cur, got |-> got,
         outs |-> outs, dropped |-> dropped,
         alive |-> {p \in Procs : ~Finished(p)}, waiting |-> {p \in Procs : Parked(p)}]
